@@ -268,12 +268,17 @@ def namesDistinct : List (Option Str) → Bool
 def readLayout (data : JVal) : Except Err Layout :=
   match data with
   | .obj kvs => do
+    -- `for step_data in data.get("steps")`: anything that iterates to nothing reads as no steps
     let stepsJ ← match Dict.get? kvs (lit "steps") with
       | some (.arr xs) => pure xs
+      | some (.obj []) => pure []
+      | some (.str []) => pure []
       | _ => throw .other            -- TypeError: 'NoneType' object is not iterable, …
     let steps ← mapE readStep stepsJ
     let inspJ ← match Dict.get? kvs (lit "inspect") with
       | some (.arr xs) => pure xs
+      | some (.obj []) => pure []
+      | some (.str []) => pure []
       | _ => throw .other
     let inspect ← mapE readInspection inspJ
     let keys ← readObj (getD kvs "keys" (.obj []))
